@@ -41,6 +41,7 @@ class Pairs:
         try:
             real = [(os.path.join(d, p), t) for p, t in files]
             for p, t in real[nmain:]:
+                os.makedirs(os.path.dirname(p), exist_ok=True)
                 with open(p, "w", encoding="utf-8") as f:
                     f.write(t)
             for p, b in bins:
@@ -474,22 +475,27 @@ def stream_once(ctx, P, rng, n):
         k = rng.choice([1, 2, 2, 3])
         places = sorted(rng.randrange(len(m) + 1) for _ in range(k))
         via = rng.random() < 0.3        # one of the later inclusions goes through another file
+        # the same file under other spellings of its path (the file is one file however it is named)
+        spell = rng.random() < 0.4
+        spellings = ["x.mac", "./x.mac", "sub/../x.mac", ".//x.mac", "./sub/.././x.mac"] if spell else ["x.mac"]
+        ypath, yinc = ("sub/y.mac", "../x.mac") if spell and rng.random() < 0.6 else ("y.mac", rng.choice(spellings))
         a_lines, b_lines = [], []
         for i in range(len(m) + 1):
             for j, pl in enumerate(places):
                 if pl == i:
-                    inc = ['.include "y.mac"'] if (via and j == len(places) - 1 and k > 1) else ['.include "x.mac"']
+                    inc = ['.include "%s"' % ypath] if (via and j == len(places) - 1 and k > 1) else ['.include "%s"' % rng.choice(spellings)]
                     a_lines += [".even"] + inc
                     b_lines += [".even"] + (inc if j == 0 else [])
             if i < len(m):
                 a_lines.append(m[i])
                 b_lines.append(m[i])
         head = ".link %o\n" % rng.choice([0o1000, 0o2000])
-        y = '.include "x.mac"\n'
-        files_a = [("m.mac", head + "\n".join(a_lines) + "\n"), ("x.mac", x), ("y.mac", y)]
-        files_b = [("m.mac", head + "\n".join(b_lines) + "\n"), ("x.mac", x), ("y.mac", y)]
+        y = '.include "%s"\n' % yinc
+        files_a = [("m.mac", head + "\n".join(a_lines) + "\n"), ("x.mac", x), (ypath, y), ("sub/keep.mac", "; keeps the directory\n")]
+        files_b = [("m.mac", head + "\n".join(b_lines) + "\n"), ("x.mac", x), (ypath, y), ("sub/keep.mac", "; keeps the directory\n")]
         ctx.count("once included %d times" % k)
-        P.pair(".once", (files_a, 1), (files_b, 1), nontrivial=k > 1)
+        ctx.count("once: the file is named by several spellings of its path", spell)
+        P.pair(".once", (files_a, 1), (files_b, 1), nontrivial=k > 1, model=not spell)
 
 
 def run(ctx):
